@@ -164,8 +164,14 @@ def untrimmed_case(ctx):
         argv += ["--untrimmed-output", "{dir}/ut1.fastq", "--untrimmed-paired-output", "{dir}/ut2.fastq"]
     if rng.random() < 0.6:
         argv += ["--pair-filter", rng.choice(["any", "both", "first"])]
-    argv += ["-o", "{dir}/o1.fastq", "-p", "{dir}/o2.fastq"]
-    return dict(argv=argv, paired=True, reads1=r1, reads2=r2, with_qual=True, interleaved_in=False, untrimmed=dict(side=side, opt=opt))
+    inter = rng.random() < 0.4
+    if inter:
+        # interleaved layout: one main output, and `--untrimmed-output` alone is the (interleaved) untrimmed file
+        argv = [t for t in argv if t not in ("--untrimmed-paired-output", "{dir}/ut2.fastq")]
+        argv += ["--interleaved", "-o", "{dir}/o1.fastq"]
+    else:
+        argv += ["-o", "{dir}/o1.fastq", "-p", "{dir}/o2.fastq"]
+    return dict(argv=argv, paired=True, reads1=r1, reads2=r2, with_qual=True, interleaved_in=inter, untrimmed=dict(side=side, opt=opt))
 
 
 def untrimmed_oracle(ctx, case, real):
